@@ -770,6 +770,8 @@ class Engine(Interp):
         self.stats['user_calls'] += 1
         if callee.get('trait') in FN_TRAITS:
             self.note_asked(st, args[1:])
+            if getattr(self, 'track_adv', False):
+                self.ghost_bump(st, ('calls',))
         self.havoc_mut_refs(st, args)
         self.give_away(st, args, nm)
         out = []
@@ -792,6 +794,12 @@ class Engine(Interp):
             val = self.mk_unknown(s, dest_ty, ('u', callee['def'], rtags), gs)
             out.append(('ret', s, val))
         return out
+
+    @staticmethod
+    def ghost_bump(st, key):
+        g = st.ghost.get(key)
+        t = g[0] if g is not None else 0
+        st.ghost[key] = (slots.plus(st, t, 1), ())
 
     def note_asked(self, st, args):
         """a user callable is called with a reference to a stored element: where that is tracked (retain), it
@@ -913,6 +921,8 @@ class Engine(Interp):
         st.log('user', 'call', tuple(self.tag_of(a) for a in args))
         self.stats['user_calls'] += 1
         self.note_asked(st, args)
+        if getattr(self, 'track_adv', False):
+            self.ghost_bump(st, ('calls',))
         self.havoc_mut_refs(st, args)
         out = []
         if not st.unwinding:
@@ -1089,6 +1099,8 @@ class Engine(Interp):
                 nf = slots.plus(a, fr, 1)
                 self.store(a, ptr, ('sliceit', mid, nf, bk, mut))
                 a.log('adv', mid, fr, 'front')
+                if getattr(self, 'track_adv', False):
+                    self.ghost_bump(a, ('adv', mid))
                 out.append(('ret', a, some(('ref', mut, ('mu', mid, fr)))))
             st.zone.add_le(bk, fr)
             if st.zone.sat:
